@@ -188,6 +188,37 @@ def run(ck):
         if abs(gotb - base_b * medb) > (2e-6 if kern_big == 'l2_high_dim' else 1e-9) * base_b * medb:
             ck.violation(f'stored bandwidth {gotb!r} != base bandwidth {base_b} x lower median {medb!r} of the pairwise distances of ALL {nb} training points (= {base_b * medb!r}) on {descb}',
                          dict(descb, got=gotb, want=base_b * medb), key=json.dumps(dict(site='bandwidth', iters0=True)))
+    # ---- the smallest training sets: two or three points (ONE pairwise distance is a median too): stored bandwidth = base x that distance, predictions invariant
+    for i in range(ck.n(6, 18)):
+        kern, extra = kernels[i % 4]
+        nt = [2, 3, 2][i % 3]; dt = 3; baset = [3.0, 0.5][i % 2]; itt = [0, 1, 2][(i // 2) % 3]
+        Xt_ = rng.standard_normal((nt, dt)); Yt_ = rng.standard_normal((nt, 1)); Xvt = rng.standard_normal((4, dt)); Yvt = rng.standard_normal((4, 1)); Qt_ = rng.standard_normal((5, dt))
+        desct = dict(kind='tiny training set', i=i, kernel=kern, n=nt, iters=itt, base=baset, diag=bool(i % 2), seed=ck.seed)
+        def fit_t(c):
+            xr.seed_all(1960 + i + ck.seed)
+            mt_ = xr.RealRFM(kernel=kern, iters=itt, bandwidth=baset, exponent=1.0, bandwidth_mode='adaptive', device='cpu', diag=bool(i % 2), verbose=False, tuning_metric='mse', **extra)
+            with xr.quiet():
+                mt_.fit((T(Xt_ * c), T(Yt_)), (T(Xvt * c), T(Yvt)), iters=itt, reg=1e-2, verbose=False, return_best_params=bool(i % 2))
+                return mt_, mt_.predict(T(Qt_ * c)).double().numpy()
+        try:
+            mt_, Pt_ = fit_t(1.0)
+        except Exception as e:
+            ck.violation(f'adaptive fit on {nt} training points raised {e!r} on {desct}', dict(desct), key='fit-raise-tiny'); continue
+        Dt = kernel_distance_matrix(mt_, mt_.centers); offt = Dt[~torch.eye(nt, dtype=torch.bool)]
+        medt = float(torch.sort(offt).values[(len(offt) - 1) // 2]); gott = float(mt_.kernel_obj.bandwidth)
+        ck.case(dict(desct, bandwidth=gott, expected=baset * medt), nontrivial=True); ck.count(f'training set of {nt} points')
+        if abs(gott - baset * medt) > (2e-6 if kern == 'l2_high_dim' else 1e-9) * max(1.0, baset * medt):
+            ck.violation(f'stored bandwidth {gott!r} != base bandwidth {baset} x lower median {medt!r} of the pairwise distances (= {baset * medt!r}) on a training set of {nt} points, {desct}',
+                         dict(desct, got=gott, want=baset * medt, X=Xt_.tolist()), key=json.dumps(dict(site='bandwidth', tiny=True)))
+        for c in (1e-3, 1e3):
+            try:
+                _, Pc_ = fit_t(c)
+            except Exception as ex:
+                ck.violation(f'fit on {nt} training points rescaled by {c} raised {ex!r} on {desct}', dict(desct, c=c), key='scaled-fit-raise'); continue
+            devt = float(np.max(np.abs(Pc_ - Pt_)))
+            if devt > (2e-4 if kern == 'l2_high_dim' else 2e-6) * (1 + float(np.abs(Pt_).max())):
+                ck.violation(f'predictions change by {devt:.3g} when the {nt} training points and the queries are rescaled by {c} on {desct}', dict(desct, c=c, dev=devt, X=Xt_.tolist()),
+                             key=json.dumps(dict(site='scale-invariance', tiny=True)))
     # ---- logistic leaf solver (binary classification, zero/one encoding) in adaptive mode: the bandwidth stored with the leaf is still base x median of the pairwise
     #      distances between ITS TRAINING POINTS (the validation points, here concentrated away from the training cloud, play no part in it)
     for i in range(ck.n(4, 12)):
